@@ -117,7 +117,7 @@ fn main() {
                     let keep = complete_prefix_len(&args[3]);
                     let _ = out.get_mut().set_len(keep);
                     let _ = out.get_mut().seek(std::io::SeekFrom::End(0));
-                    writeln!(out, "{}", serde_json::json!({"h": prog["h"], "i": 1, "op": "run", "result": if done { "crash" } else { "hang" }, "steps": [], "blocked": [], "deviations": 0, "nthreads": 0, "panic": "", "spinners": [], "tticks": 0, "spincheck": false, "flushes": 0, "limcheck": 0, "tpanics": 0, "final_pos": -1, "pos0": 0, "frames": [], "framecheck": false, "nbars": 0, "sumcheck": false})).unwrap();
+                    writeln!(out, "{}", serde_json::json!({"h": prog["h"], "i": 1, "op": "run", "result": if done { "crash" } else { "hang" }, "steps": [], "blocked": [], "deviations": 0, "nthreads": 0, "panic": "", "spinners": [], "tticks": 0, "spincheck": false, "flushes": 0, "limcheck": 0, "tpanics": 0, "final_pos": -1, "pos0": 0, "frames": [], "framecheck": false, "paircheck": false, "nbars": 0, "sumcheck": false})).unwrap();
                 }
             }
         }
